@@ -1,3 +1,4 @@
+pub mod c03;
 pub mod c08;
 pub mod c10;
 pub mod c11;
@@ -10,6 +11,7 @@ use crate::driver::PropEngine;
 
 pub fn engine_for(id: &str) -> Option<Box<dyn PropEngine>> {
     match id {
+        "C03" => Some(Box::new(c03::C03Engine)),
         "C04" => Some(Box::new(forest_props::ForestEngine::c04())),
         "C05" => Some(Box::new(forest_props::ForestEngine::c05())),
         "C06" => Some(Box::new(forest_props::ForestEngine::c06())),
@@ -23,4 +25,4 @@ pub fn engine_for(id: &str) -> Option<Box<dyn PropEngine>> {
     }
 }
 
-pub const CLAIMED: [&str; 9] = ["C04", "C05", "C06", "C08", "C10", "C11", "C12", "C16", "C20"];
+pub const CLAIMED: [&str; 10] = ["C03", "C04", "C05", "C06", "C08", "C10", "C11", "C12", "C16", "C20"];
